@@ -325,6 +325,8 @@ def gen_catalogue(names, variant='exc'):
         for p in ('d', 'ld'):
             S.append(['init', p, 'cxx', 'cat', n])
             S += [['name', p, 'cxx'], ['dim', p, 'cxx']]
+            if p == 'd':        # the same two questions through the C interface (caller-owned buffer, pre-filled by the driver)
+                S += [['name', p, 'c'], ['dim', p, 'c']]
             if e and not e['fixture']:
                 S += [['sanity', p, 'cxx'], ['initp', p, 'cxx'], ['sanity', p, 'cxx']]
                 for fn, sig in map(tuple, e['caps']):
@@ -574,7 +576,18 @@ def scale_mix(rng, sol, vals, i=0):
     return vals
 
 
-def gen_values(rng, sol, precs=('d', 'ld'), nassign=2, npts=3, evaluators=None, setter=None, variant='exc', paired=True, mix=False):
+PROTECT = ('L', 'Lx', 'Ly', 'Lz', 'Gamma', 'R', 'rho_0', 'p_0')
+
+
+def zeroable(sol):
+    """parameters that may be set to EXACTLY zero without leaving the admissible set (amplitudes, frequencies,
+    transport coefficients, constant parts of velocities): a fast path or guard keyed on an exact zero shows only there"""
+    if purity_picker(sol) is not admissible_param or sol == 'navierstokes_4d_compressible_powerlaw':
+        return []
+    return [k for k in CAT[sol]['pars'] if k not in PROTECT]
+
+
+def gen_values(rng, sol, precs=('d', 'ld'), nassign=2, npts=3, evaluators=None, setter=None, variant='exc', paired=True, mix=False, zero_plan=None):
     """set every parameter to an admissible random value, then evaluate every provided evaluator at random
     points; with paired=True the same assignment and points are used in both precisions (inputs are exact
     doubles, so both instantiations receive identical mathematical inputs)."""
@@ -590,6 +603,9 @@ def gen_values(rng, sol, precs=('d', 'ld'), nassign=2, npts=3, evaluators=None, 
         vals = {k: pick(rng, sol, k) for k in e['pars']}
         if mix:
             vals = scale_mix(rng, sol, vals, ai)
+        if zero_plan:
+            for k in zero_plan[ai]:
+                vals[k] = 0.0
         data = None
         if sol == 'cp_normal':
             data = [exact_double(rng, -3.0, 3.0) for _ in range(rng.randint(1, 8))]
